@@ -25,7 +25,9 @@ def impl_queries(m):
     """the same (q ...) value the model's op_queries produces, computed through the public API"""
     fm = spec.build_fm(m)
     q = build_queries(fm)
-    return q, spec.dump_fm(fm)
+    import live
+    stale = [n for n in live.GHOST_NAMES + ("__never_there__",) if fm.get_feature_by_name(n) is not None]
+    return q, spec.dump_fm(fm), stale
 
 
 def build_queries(fm):
@@ -299,8 +301,12 @@ def run(ctx):
         req = sx.dumps(tag("queries", spec.fm_sx(m)))
         model_reply = ctx.model.call_raw(req)
         try:
-            reply, after = impl_queries(m)
+            reply, after, stale = impl_queries(m)
             impl_reply = sx.dumps(reply)
+            if stale and not any(f["name"] in stale for f in spec.spec_features(m["root"])):
+                # lookup by name returns the feature carrying that name: no feature of the tree carries these (a subtree
+                # that was removed before, DESIGN 9.6 round 10)
+                st.oracle_fail(label, req, "lookup:finds-a-feature-that-is-not-in-the-tree", str(stale))
         except Exception as e:  # noqa: BLE001
             reply, after = None, None
             impl_reply = f"(crash {spec.exn_name(e)} {type(e).__name__})"
